@@ -194,12 +194,12 @@ def gen_budget_case(rng: random.Random) -> tuple[str, dict, dict]:
       waiting    retry n succeeds as far as a wait_for_event nobody answers; the run is released for idleness
                  (idle_timeout just above the retry delay) and reloaded by the awaited event D / 2D / 40 s later.
     Uninterrupted, each of these runs completes after n failures + 1 success of the step."""
-    kind = rng.choice(["delay", "delay", "before_delay"])
+    kind = rng.choice(["delay", "delay", "delay", "before_delay", "before_delay", "attempts"])  # (attempts: the same histories under a count-bounded policy)
     shape = rng.choice(["in_flight", "in_flight", "in_flight", "pending", "waiting", "waiting"])
     n = rng.choice([2, 2, 3])
     w = rng.choice([2, 3] if shape == "pending" else [1, 2, 3])
     D = n * w + rng.choice([1, 2, 4])  # failure k comes (k-1)*w after the first attempt: (n-1)*w (+ w) < D, every retry is granted
-    pol = {"kind": kind, "d": D, "wait": w}
+    pol = {"kind": kind, "d": D, "wait": w} if kind != "attempts" else {"kind": "attempts", "n": n + rng.choice([1, 2]), "wait": w}
     exc = rng.randint(1, 9)
     if shape == "waiting":
         worker = {"name": "s02", "accepts": [5], "nw": rng.randint(1, 2), "retry": pol,
